@@ -217,6 +217,13 @@ def r2_nan_not_error(ctx):
                         facts_.add(a.text.replace(" ", ""))
                     else:
                         facts_.add("not:" + a.text.replace(" ", ""))
+                        # not (x < y)  ==  x >= y  (guard-clause form)
+                        if isinstance(nd, ast.Compare) and len(nd.ops) == 1:
+                            flip = {ast.Lt: ">=", ast.LtE: ">", ast.Gt: "<=",
+                                    ast.GtE: "<"}.get(type(nd.ops[0]))
+                            if flip:
+                                facts_.add((norm(nd.left) + flip + norm(
+                                    nd.comparators[0])).replace(" ", ""))
                 want = {f"{hi}>{lo}", f"{lo}<{hi}", f"{hi}-{lo}>0",
                         f"{hi}-{lo}>=1"}
                 # midpoint splits: m = a + (b - a) // 2
@@ -711,6 +718,8 @@ def _nonneg(expr, R, f, depth=0):
         return expr.attr in ("size", "ndim")
     if isinstance(expr, (ast.List, ast.Tuple)):
         return all(_nonneg(e, R, f, depth + 1) for e in expr.elts)
+    if isinstance(expr, (ast.ListComp, ast.GeneratorExp)):
+        return _nonneg(expr.elt, R, f, depth + 1)
     return False
 
 
